@@ -70,10 +70,11 @@ def main() -> int:
     for fi, fam in enumerate(families):
         for di, d in enumerate(fam):
             for meta in ("none", "poetry", "setup", "pdm"):
-                j = run.job(d, want=["treehash"], meta=meta)
-                j["name"] = "out"
-                fkey[j["id"]] = (fi, di, meta)
-                fresh_jobs.append(j)
+                for doa in (False, True):
+                    j = run.job(d, want=["treehash"], meta=meta, cfg={"docstrings_on_attributes": True} if doa else {})
+                    j["name"] = "out"
+                    fkey[j["id"]] = (fi, di, meta, doa)
+                    fresh_jobs.append(j)
     fresh = {}
     for j, res in zip(fresh_jobs, run.map(fresh_jobs, timeout=300)):
         if not res.get("_error") and not res.get("exc") and res.get("accepted"):
@@ -92,6 +93,10 @@ def main() -> int:
             if hooked:
                 # a configured post-hook that leaves a trace in its working directory each time it runs
                 st["cfg"] = {"post_hooks": [HOOK]}
+            # options may change from one command to the next: the result is the fresh tree under the *current* options
+            st["_doa"] = r.random() < 0.4
+            if st["_doa"]:
+                st["cfg"] = dict(st.get("cfg") or {}, docstrings_on_attributes=True)
             if not titled:
                 st["outdir_rel"] = "target/out"
             if si >= 1 and r.random() < 0.4:
@@ -138,7 +143,7 @@ def main() -> int:
             ev.count("commands")
             if st.get("via") == "subprocess":
                 ev.count("real_cli_processes")
-            w = {"history": [{"doc_index": s.get("_di"), "meta": s["meta"], "overwrite": s["overwrite"], "via": s.get("via"), "outdir_rel": s.get("outdir_rel"), "user_files": list((s.get("user_files") or {}))} for s in steps[: si + 1]],
+            w = {"history": [{"doc_index": s.get("_di"), "meta": s["meta"], "overwrite": s["overwrite"], "via": s.get("via"), "outdir_rel": s.get("outdir_rel"), "user_files": list((s.get("user_files") or {})), "cfg": s.get("cfg")} for s in steps[: si + 1]],
                  "kind": kind, "step": si, "doc": st["doc"] if kind == "hostile" else None, "family_docs": [families[a][s["_di"]] for s in steps[: si + 1]] if kind == "family" else None}
             if obs.get("exc"):
                 ev.count("generator_crashed(C06)")
@@ -177,16 +182,16 @@ def main() -> int:
                 continue
             if kind != "family":
                 continue
-            want = fresh.get((a, st["_di"], meta))
+            want = fresh.get((a, st["_di"], meta, bool(st.get("_doa"))))
             if want is None or errored:
                 continue
             ev.count("convergence_checked")
             user = {p: h for p, h in inner_before.items() if ("USER_NOTES" in p or "my_extras/" in p)}
             for p, h in user.items():
-                if inner_after.get(p) != h and not (st.get("cfg") and "/" not in p and p.endswith(".md")):
+                if inner_after.get(p) != h and not ((st.get("cfg") or {}).get("post_hooks") and "/" not in p and p.endswith(".md")):
                     vd.violation("user_file_touched", f"user file {p} changed or disappeared on overwrite", w)
             got = {p: h for p, h in inner_after.items() if p not in user}
-            if st.get("cfg"):
+            if (st.get("cfg") or {}).get("post_hooks"):
                 ev.count("commands_with_post_hook")
                 if "HOOK_LOG_ZQ" not in got:
                     vd.violation("post_hook_not_run", "the configured post-hook left no trace in the output directory", w)
